@@ -13,7 +13,8 @@ usage: seeded_eval.py <PROP> <agent-worktree> <name> [--alt]
 import json, os, subprocess, sys, shutil, time
 
 ENV = dict(os.environ, GOFLAGS="-mod=mod", GOPROXY="off", GOSUMDB="off", GOTOOLCHAIN="local")
-VERIF = "/verif"
+VERIF = "/verif"  # results are stored here
+RUN = os.environ.get("VERIF_DIR", VERIF)  # the checks are run from here (a snapshot of /verif while the harness is being edited)
 
 
 def sh(cmd, cwd=None, env=ENV, timeout=3600):
@@ -109,7 +110,7 @@ def main():
             assert rc == 0, out
             for tier in ("quick", "thorough"):
                 t0 = time.time()
-                rc, out = sh([os.path.join(VERIF, "check"), prop, tier], cwd=VERIF, env=dict(ENV, VERIF_REPO=wt2, VERIF_OUT="/tmp/seedchk/out_" + name))
+                rc, out = sh([os.path.join(RUN, "check"), prop, tier], cwd=RUN, env=dict(ENV, VERIF_REPO=wt2, VERIF_OUT="/tmp/seedchk/out_" + name))
                 lines = [l for l in out.splitlines() if l.startswith(("VIOLATION", "  sig=", "INCONCLUSIVE", "KNOWN"))]
                 ran.append({"cmd": "./check %s %s" % (prop, tier), "exit": rc, "seconds": round(time.time() - t0, 1), "lines": [l[:400] for l in lines[:6]]})
                 if rc == 1:
